@@ -12,6 +12,7 @@ For a prime `Q ≡ 5 (mod 8)`, `I² = -1` and non-square `d`:
   the sign is wrong);
 * hence for a curve point `P`, `xrecover(P.y)` is `P.x.val` or `Q - P.x.val`, whichever is even.
 -/
+set_option linter.unusedSimpArgs false
 namespace Spake2Verif.EdBridge
 open Spake2Model Spake2Model.Gen.Ed Spake2Verif.Edw
 
@@ -43,65 +44,128 @@ theorem onCurve_of_x_sq (C : EdCurve (ZMod Q)) {x y : ZMod Q}
 theorem emod_eq_zero_iff (a : ℤ) : Int.emod a Q = 0 ↔ (a : ZMod Q) = 0 := by
   rw [ZMod.intCast_zmod_eq_zero_iff_dvd]; exact (Int.dvd_iff_emod_eq_zero).symm
 
+/-- Fermat inversion, unconditionally (`inv(0) = 0 = 0⁻¹` as `Q > 2`) -/
+theorem inv_cast_total (hQ2 : 2 < Q) (z : ℤ) :
+    ((inv (Q : ℤ) z : ℤ) : ZMod Q) = (z : ZMod Q)⁻¹ := by
+  by_cases hz : (z : ZMod Q) = 0
+  · rw [hz, inv_zero]
+    unfold inv
+    have h2 : (2 : ℤ) < (Q : ℤ) := by exact_mod_cast hQ2
+    rw [Py.pow3_spec z ((Q : ℤ) - 2) Q (by omega) Q_pos, ZMod.intCast_mod, Int.cast_pow, hz]
+    exact zero_pow (by omega)
+  · exact inv_cast z hz
+
+/-- two reduced integers are equal iff their residues are -/
+theorem reduced_eq_iff {a b : ℤ} (ha : 0 ≤ a ∧ a < Q) (hb : 0 ≤ b ∧ b < Q) :
+    a = b ↔ (a : ZMod Q) = (b : ZMod Q) := by
+  constructor
+  · rintro rfl; rfl
+  · intro h
+    exact (eq_val_of_cast_eq ha.1 ha.2 h).trans (eq_val_of_cast_eq hb.1 hb.2 rfl).symm
+
+/-- the square-root test written `pow(x, 2, Q) != xx` with `xx` already reduced -/
+theorem pow3_two_ne_emod_iff (x b : ℤ) :
+    Py.pow3 x 2 (Q : ℤ) ≠ Int.emod b Q ↔ (x : ZMod Q) ^ 2 ≠ (b : ZMod Q) := by
+  rw [Ne, Ne, reduced_eq_iff ⟨Py.pow3_nonneg _ _ _, Py.pow3_lt _ _ _ Q_pos⟩ (emod_reduced b),
+    Py.pow3_spec _ _ _ (by norm_num) Q_pos, cast_emod]
+  have : ((x ^ (2 : ℤ).toNat % (Q : ℤ) : ℤ) : ZMod Q) = (x : ZMod Q) ^ 2 := by
+    rw [ZMod.intCast_mod]; push_cast; rfl
+  rw [this]
+
+/-- the square-root test written `(x*x - xx) % Q != 0` (or with any other integer polynomial) -/
+theorem emod_ne_zero_iff (a : ℤ) : Int.emod a Q ≠ 0 ↔ (a : ZMod Q) ≠ 0 := by
+  rw [Ne, Ne, emod_eq_zero_iff]
+
 section
 variable (C : EdCurve (ZMod Q)) (d I : ℤ) (hd : (d : ZMod Q) = C.d) (hI : (I : ZMod Q) = C.i)
   (hQ8 : Q % 8 = 5)
 include hd hI hQ8
 
-/-- the value of `xrecover` before the final parity adjustment -/
-theorem xrecover_core (y : ℤ) :
-    ∃ x2 : ℤ, (0 ≤ x2 ∧ x2 < Q) ∧
-      xrecover (Q : ℤ) d I y = (if Int.emod x2 2 ≠ 0 then (Q : ℤ) - x2 else x2) ∧
+/-- The structure of `xrecover`, independent of how its pieces are written:
+`xx ≡ (y²-1)/(dy²+1)`, candidate `x1 = pow(xx, (Q+3)//8, Q)`, replaced by `m2 % Q` with
+`m2 ≡ x1·I` when the test `T1` (equivalent to `x1² ≢ xx`) holds, finally replaced by `Q - x2` when
+the test `T2` (equivalent to `x2` odd) holds. -/
+theorem xrecover_core_of (y r xx x1 x2 m2 e : ℤ) {T1 T2 : Prop} {i1 : Decidable T1} {i2 : Decidable T2}
+    (hr : r = @ite _ T2 i2 ((Q : ℤ) - x2) x2)
+    (hx2 : x2 = @ite _ T1 i1 (Int.emod m2 Q) x1)
+    (hx1 : x1 = Py.pow3 xx e Q)
+    (he : e = ((Q : ℤ) + 3) / 8)
+    (hT2 : T2 ↔ x2 % 2 ≠ 0)
+    (hT1 : T1 ↔ (x1 : ZMod Q) ^ 2 ≠ (xx : ZMod Q))
+    (hm2 : (m2 : ZMod Q) = (x1 : ZMod Q) * (I : ZMod Q))
+    (hxx : (xx : ZMod Q) = ((y : ZMod Q) ^ 2 - 1) / (1 + C.d * (y : ZMod Q) ^ 2)) :
+    ∃ x2' : ℤ, (0 ≤ x2' ∧ x2' < Q) ∧
+      r = (if Int.emod x2' 2 ≠ 0 then (Q : ℤ) - x2' else x2') ∧
       ((∃ x0 : ZMod Q, OnCurve C.d x0 (y : ZMod Q)) →
-        (x2 : ZMod Q) ^ 2 = ((y : ZMod Q) ^ 2 - 1) / (1 + C.d * (y : ZMod Q) ^ 2)) := by
+        (x2' : ZMod Q) ^ 2 = ((y : ZMod Q) ^ 2 - 1) / (1 + C.d * (y : ZMod Q) ^ 2)) := by
   have hQpos := Q_pos (Q := Q)
-  let xx : ℤ := ((y * y) - 1) * (inv (Q : ℤ) (((d * y) * y) + 1))
-  let x1 : ℤ := Py.pow3 xx (Int.fdiv ((Q : ℤ) + 3) 8) Q
-  refine ⟨if Int.emod ((x1 * x1) - xx) Q ≠ 0 then Int.emod (x1 * I) Q else x1, ?_, ?_, ?_⟩
-  · split
+  refine ⟨x2, ?_, ?_, ?_⟩
+  · rw [hx2]
+    split
     · exact emod_reduced _
-    · exact ⟨Py.pow3_nonneg _ _ _, Py.pow3_lt _ _ _ hQpos⟩
-  · unfold xrecover
-    simp only [decide_eq_true_eq]
-    rfl
+    · rw [hx1]; exact ⟨Py.pow3_nonneg _ _ _, Py.pow3_lt _ _ _ hQpos⟩
+  · rw [hr]
+    exact if_congr hT2 rfl rfl
   · rintro ⟨x0, hon⟩
     have hu := x_sq_of_onCurve C hon
     set u : ZMod Q := ((y : ZMod Q) ^ 2 - 1) / (1 + C.d * (y : ZMod Q) ^ 2) with hudef
-    -- the cast of `xx`
-    have hden : (((d * y) * y + 1 : ℤ) : ZMod Q) ≠ 0 := by
-      push_cast; rw [hd]
-      have := one_add_d_sq_ne_zero C (y : ZMod Q)
-      intro h0; apply this; linear_combination h0
-    have hxx : (xx : ZMod Q) = u := by
-      show ((((y * y) - 1) * (inv (Q : ℤ) (((d * y) * y) + 1)) : ℤ) : ZMod Q) = u
-      rw [Int.cast_mul, inv_cast _ hden, hudef, div_eq_mul_inv]
-      push_cast; rw [hd]; ring_nf
     -- the exponent
     obtain ⟨m, hm⟩ : ∃ m : ℕ, Q = 8 * m + 5 := ⟨Q / 8, by omega⟩
-    have hfd : Int.fdiv ((Q : ℤ) + 3) 8 = ((m + 1 : ℕ) : ℤ) := by
-      rw [Int.fdiv_eq_ediv_of_nonneg _ (by norm_num)]; omega
-    have hx1 : (x1 : ZMod Q) = u ^ (m + 1) := by
-      show ((Py.pow3 xx (Int.fdiv ((Q : ℤ) + 3) 8) Q : ℤ) : ZMod Q) = _
-      rw [hfd, Py.pow3_spec _ _ _ (Int.natCast_nonneg _) hQpos, Int.toNat_natCast,
+    have hfd : e = ((m + 1 : ℕ) : ℤ) := by rw [he]; omega
+    have hx1' : (x1 : ZMod Q) = u ^ (m + 1) := by
+      rw [hx1, hfd, Py.pow3_spec _ _ _ (Int.natCast_nonneg _) hQpos, Int.toNat_natCast,
         ZMod.intCast_mod, Int.cast_pow, hxx]
     have hQ2 : Q / 2 = 4 * m + 2 := by omega
     have hsq : (x1 : ZMod Q) ^ 2 = u * x0 ^ (Q / 2) := by
-      rw [hx1, hQ2, ← hu]; ring
-    have htest : Int.emod ((x1 * x1) - xx) Q ≠ 0 ↔ (x1 : ZMod Q) ^ 2 ≠ u := by
-      rw [Ne, emod_eq_zero_iff]; push_cast; rw [hxx, sub_eq_zero, sq]
-    by_cases ht : Int.emod ((x1 * x1) - xx) Q ≠ 0
+      rw [hx1', hQ2, ← hu]; ring
+    rw [hxx] at hT1
+    rw [hx2]
+    by_cases ht : T1
     · rw [if_pos ht]
-      have hne := htest.1 ht
+      have hne := hT1.1 ht
       have hx0 : x0 ≠ 0 := by
         rintro rfl
         apply hne
         rw [hsq, ← hu]; simp
       rcases ZMod.pow_div_two_eq_neg_one_or_one Q hx0 with h1 | h1
       · exfalso; apply hne; rw [hsq, h1, mul_one]
-      · rw [cast_emod, Int.cast_mul, mul_pow, hI, C.hi, hsq, h1]; ring
+      · rw [cast_emod, hm2, mul_pow, hI, C.hi, hsq, h1]; ring
     · rw [if_neg ht]
       by_contra hne
-      exact ht (htest.2 hne)
+      exact ht (hT1.2 hne)
+
+/-- the value of `xrecover` before the final parity adjustment.  The generated definition is only
+*matched* against the structure of `xrecover_core_of` (by unification); the tests and the
+arithmetic may be written in any of the equivalent ways handled by the normalising lemmas. -/
+theorem xrecover_core (y : ℤ) :
+    ∃ x2 : ℤ, (0 ≤ x2 ∧ x2 < Q) ∧
+      xrecover (Q : ℤ) d I y = (if Int.emod x2 2 ≠ 0 then (Q : ℤ) - x2 else x2) ∧
+      ((∃ x0 : ZMod Q, OnCurve C.d x0 (y : ZMod Q)) →
+        (x2 : ZMod Q) ^ 2 = ((y : ZMod Q) ^ 2 - 1) / (1 + C.d * (y : ZMod Q) ^ 2)) := by
+  have hQ2 : 2 < Q := by omega
+  refine xrecover_core_of C d I hd hI hQ8 y (xrecover (Q : ℤ) d I y) ?xx ?x1 ?x2 ?m2 ?e
+    (T1 := ?T1) (T2 := ?T2) (i1 := ?i1) (i2 := ?i2) (hr := ?hr) (hx2 := ?hx2) (hx1 := ?hx1) (he := ?he) (hT2 := ?hT2) (hT1 := ?hT1)
+    (hm2 := ?hm2) (hxx := ?hxx)
+  case hr => unfold xrecover; rfl
+  case hx2 => rfl
+  case hx1 => rfl
+  case he =>
+    first
+    | rfl
+    | exact Int.fdiv_eq_ediv_of_nonneg _ (by norm_num)
+  case hT2 =>
+    simp only [decide_eq_true_eq, Py.band_one] <;> exact Iff.rfl
+  case hT1 =>
+    simp only [decide_eq_true_eq, pow3_two_ne_emod_iff, emod_ne_zero_iff] <;>
+    first
+    | exact Iff.rfl
+    | (push_cast [cast_emod, inv_cast_total hQ2]
+       constructor <;> intro h <;> contrapose! h <;> linear_combination h)
+  case hm2 => push_cast; ring
+  case hxx =>
+    push_cast [cast_emod, inv_cast_total hQ2]
+    simp only [hd]
+    ring
 
 /-- `xrecover(y)` is always an even integer in `[0, Q)`; it satisfies the curve equation with `y`
 whenever anything does -/
